@@ -6,6 +6,7 @@ oracle: the property statement re-evaluated independently (arc-length re-integra
         before, convert_to_2d) and the lanelet merge_lanelets returns (its distance array and interpolate_position)
 corr:   Model/ArcLen.v and Model/Routes.v evaluated by vm_compute on the same cases (Corr/C20.v)"""
 import math
+import random
 import re
 import signal
 from fractions import Fraction as F
@@ -69,9 +70,23 @@ def build_network(case):
         la = Lanelet(np.array([[x, 1.0] for x in xs]), np.array([[x, 0.0] for x in xs]),
                      np.array([[x, -1.0] for x in xs]), i, predecessor=list(nd["pred"]), successor=list(nd["succ"]))
         objs[i] = la
+    if case.get("cut"):
+        # the network of the case is what the library cuts out of a larger one: the lanelets named in "cut" are left
+        # behind, create_from_lanelet_list copies the others and closes their references (seed C20-14)
+        net = LaneletNetwork.create_from_lanelet_list([objs[i] for i in sorted(objs) if i not in case["cut"]])
+        return net, {la.lanelet_id: la for la in net.lanelets}
     for i in sorted(objs):
         net.add_lanelet(objs[i], rtree=False)
     return net, objs
+
+
+def eff_nodes(case):
+    """the graph the judged call runs on: the nodes of the case without the ones that were cut away"""
+    cut = set(case.get("cut") or [])
+    if not cut:
+        return case["nodes"]
+    return {k: dict(nd, succ=[x for x in nd["succ"] if x not in cut], pred=[x for x in nd["pred"] if x not in cut])
+            for k, nd in case["nodes"].items() if int(k) not in cut}
 
 
 def apply_history(la, hist):
@@ -206,6 +221,8 @@ def observe(case):
             r = with_timeout(lambda: f(net, max_length=case["max"]))
         except Timeout:
             return ("timeout",)
+        except (AttributeError, KeyError, TypeError, IndexError, ValueError) as e:
+            return ("exc", type(e).__name__)
         return ("paths", [[int(x) for x in p] for p in r])
     raise RuntimeError(op)
 
@@ -371,7 +388,10 @@ def oracle(case):
     # routes
     if o[0] == "timeout":
         return bad("terminates", "does not terminate")
-    nodes = case["nodes"]
+    if o[0] == "exc":
+        return bad("raises", f"raises {o[1]}" + (" on a network cut out by create_from_lanelet_list" if case.get("cut")
+                                                 else ""))
+    nodes = eff_nodes(case)
     rel = "succ" if op == "succ" else "pred"
     start = case["start"]
     direct = nodes[str(start)][rel]
@@ -745,7 +765,11 @@ def gen_graph(rng, op):
         mx = rng.choice([1000.0, 1e6, 200])
     else:
         mx = rng.choice([rng.randint(1, 80), round(rng.uniform(0, 80), 2)])
-    return {"op": op, "nodes": nodes, "start": start, "max": mx, "shape": shape}
+    case = {"op": op, "nodes": nodes, "start": start, "max": mx, "shape": shape}
+    r2 = random.Random(rng.getrandbits(30))
+    if len(ids) > 2 and r2.random() < 0.25:
+        case["cut"] = sorted(r2.sample([i for i in ids if i != start], r2.randint(1, min(3, len(ids) - 1))))
+    return case
 
 
 def gen(rng, n):
@@ -859,8 +883,8 @@ def corr_terms(case, o):
         return ["CRoutes [] [] 0%Z 0 [[0%Z]]"], 0  # never agrees: the model always terminates
     if sum(len(p) for p in o[1]) > 3000:
         return [], 1  # too large for a case file; judged by the oracle only
-    edges = qlist([f"({qz(int(k))}, {qlist([qz(x) for x in nd[rel]])})" for k, nd in case["nodes"].items()])
-    lens = qlist([f"({qz(int(k))}, {qq(nd['len'])})" for k, nd in case["nodes"].items()])
+    edges = qlist([f"({qz(int(k))}, {qlist([qz(x) for x in nd[rel]])})" for k, nd in eff_nodes(case).items()])
+    lens = qlist([f"({qz(int(k))}, {qq(nd['len'])})" for k, nd in eff_nodes(case).items()])
     return [f"CRoutes {edges} {lens} {qz(case['start'])} {qq(case['max'])} "
             f"{qlist([qlist([qz(x) for x in p]) for p in o[1]])}"], 0
 
